@@ -713,6 +713,37 @@ func (s *DB) getHistoricRootsAndNodes(
 			}
 		}
 	}
+	// Nodes are content-addressed and shared: a node that one retired version
+	// dropped can be in use again by a later version (e.g. insert then delete
+	// returns a leaf to its earlier content). Never delete what the current
+	// tree or any retained version still refers to.
+	if len(candidateBlocks) > 0 {
+		keepLinksOf := func(m *mast.Mast) error {
+			return m.DiffLinks(ctx, nil,
+				func(removed bool, link interface{}) (bool, error) {
+					if ls, ok := link.(string); ok && !removed {
+						delete(candidateBlocks, ls)
+					}
+					return true, nil
+				})
+		}
+		if err := keepLinksOf(s.crdt.Mast); err != nil {
+			return nil, nil, fmt.Errorf("walk current tree: %w", err)
+		}
+		for name, root := range rootCacheByName {
+			if _, retiring := candidateRoots[name]; retiring {
+				continue
+			}
+			name := name
+			retained, err := crdt.Load(ctx, s.crdt.Config, &name, *root)
+			if err != nil {
+				return nil, nil, fmt.Errorf("load retained version %s: %w", name, err)
+			}
+			if err := keepLinksOf(retained.Mast); err != nil {
+				return nil, nil, fmt.Errorf("walk retained version %s: %w", name, err)
+			}
+		}
+	}
 	nodes = make([]string, 0, len(candidateBlocks))
 	for k := range candidateBlocks {
 		nodes = append(nodes, k)
